@@ -1,4 +1,5 @@
 // C02 — the std_portable.h twin of igris::vector (own executable: it redefines igris::vector).
+#include "c02_extra.hpp"
 #include "c02_large.hpp"
 #include "c02_vector.hpp"
 #include <igris/container/std_portable.h>
@@ -16,5 +17,6 @@ MC_INIT
 {
     c02::register_vectors<TwinTraits>();
     c02::register_large_vectors<TwinTraits>();
+    c02::register_extra<TwinTraits>();
 }
 MC_MAIN
